@@ -9,7 +9,7 @@ use p2panda_core::VerifyingKey;
 use p2panda_encryption::key_bundle::{KeyBundleError, Lifetime, LongTermKeyBundle};
 use p2panda_encryption::key_manager::{KeyManager, KeyManagerError, KeyManagerState};
 use p2panda_encryption::key_registry::{KeyRegistry, KeyRegistryError, KeyRegistryState};
-use p2panda_encryption::traits::{KeyBundle, PreKeyManager};
+use p2panda_encryption::traits::{IdentityRegistry, KeyBundle, PreKeyManager};
 use p2panda_encryption::{Rng, RngError};
 use p2panda_store::Transaction;
 use p2panda_store::key_registry::KeyRegistryStore;
@@ -177,6 +177,14 @@ where
     pub async fn register_member(&mut self, member: &Member) -> Result<(), IdentityError<F, C>> {
         let pki = {
             let y = self.key_registry().await?;
+
+            // The identity key of a member can not change.
+            if let Ok(Some(identity_key)) = KeyRegistry::identity_key(&y, &member.id())
+                && &identity_key != member.key_bundle().identity_key()
+            {
+                return Err(IdentityError::IdentityKeyMismatch(member.id()));
+            }
+
             KeyRegistry::add_longterm_bundle(y, member.id(), member.key_bundle().clone())?
         };
 
@@ -271,6 +279,9 @@ where
 
     #[error("received long-term key bundle for {0} on message signed by unexpected author {1}")]
     KeyBundleAuthor(VerifyingKey, VerifyingKey),
+
+    #[error("received key bundle for {0} with an identity key different from the registered one")]
+    IdentityKeyMismatch(VerifyingKey),
 
     #[error(transparent)]
     Store(#[from] StoreError),
